@@ -879,3 +879,12 @@ func init() {
 	mutant("data-padded-without-the-flag", "serialize-essentials", "data.go", "		fr.SetFlags(\n			fr.Flags().Add(FlagPadded))\n		data.b = http2utils.AddPadding(data.b)", "		data.b = http2utils.AddPadding(data.b)")
 	mutant("data-flagged-without-padding", "serialize-essentials", "data.go", "			fr.Flags().Add(FlagPadded))\n		data.b = http2utils.AddPadding(data.b)\n", "			fr.Flags().Add(FlagPadded))\n")
 }
+
+func init() {
+	mutant("shrink-counts-down-from-zero", "counted-loops-advance", "hpack.go", "		for i := 0; i < n; i++ {\n			// release the header field", "		for i := 0; i < n; i-- {\n			// release the header field")
+	mutant("previous-walks-off-the-end", "counted-loops-advance", "streams.go", "for i := len(strms) - 1; i >= 0; i-- {", "for i := len(strms) - 1; i >= 0; i++ {")
+}
+
+func init() {
+	mutant("hpack-reset-keeps-the-table", "reset-completeness", "hpack.go", "func (hp *HPACK) Reset() {\n	hp.releaseDynamic()\n", "func (hp *HPACK) Reset() {\n")
+}
